@@ -69,7 +69,7 @@ theorem getArgsV_shape {res : Res} {m0 : Content} {st st' : St} {f : Flags} {n :
   split at h
   · cases h
   · rename_i T st1 hca
-    obtain ⟨hs, _, _⟩ := computeArgs_spec wf hi hca
+    obtain ⟨hs, _, _, _⟩ := computeArgs_spec wf hi hca
     split at h
     · cases h
     · rename_i sel hsel
@@ -333,12 +333,6 @@ theorem pickNames_cover (st : List (Name × Rat)) (k : Name) (x : Rat) (h : (k, 
     · exact .inl ⟨(k, x), ⟨h, hgt⟩, rfl⟩
     · exact absurd (Rat.le_antisymm (Rat.not_lt.1 hgt) (Rat.not_lt.1 hlt)) hx
 
-theorem plainOnly_last {res : Res} {m0 : Content} (wf : WF res m0) :
-    PlainOnly m0 (res.rawPars.getLast?.getD []) := by
-  cases h : res.rawPars.getLast? with
-  | none => intro a _ hm; simp [omKeys] at hm
-  | some p => exact wf.plainOnly p (List.mem_of_getLast? h)
-
 theorem specAdjust_none (out : List Table) (cc : Bool) :
     specAdjust out .none cc =
       if cc then
@@ -354,7 +348,8 @@ theorem getProdConsV_spec {res : Res} {m0 : Content} {k0 : Cache} {st st' : St}
     (wf : WF res m0) (hm0 : createCache m0 = .ok k0) (hi : Inv res m0 st)
     (hq : scaled = true → NoDynCoef res m0 v)
     (h : getProdConsV res prod v scaled n cc st = .ok (view, st')) :
-    specProdCons res m0 prod v scaled n cc = .ok view ∧ Inv res m0 st' := by
+    specProdCons res m0 prod v scaled n cc = .ok view ∧ Inv res m0 st' ∧
+      st'.model = st.model := by
   unfold getProdConsV at h
   unfold specProdCons
   split at h
@@ -375,8 +370,9 @@ theorem getProdConsV_spec {res : Res} {m0 : Content} {k0 : Cache} {st st' : St}
         split at h
         · cases h
         · rename_i tabs st1 hfl
-          obtain ⟨hsf, hi1⟩ := getFluxesV_spec wf hm0 hi0 hfl
+          obtain ⟨hsf, hi1, _⟩ := getFluxesV_spec wf hm0 hi0 hfl
           obtain ⟨T, hT, hlenF⟩ := getArgsV_shape wf hi0 hfl
+          have hil : Inv res m0 { st1 with model := st.model } := ⟨hi.model, hi1.memo⟩
           split at h
           · cases h
           · rename_i sel hsel
@@ -391,11 +387,26 @@ theorem getProdConsV_spec {res : Res} {m0 : Content} {k0 : Cache} {st st' : St}
             cases scaled with
             | false =>
               simp only [Bool.false_eq_true, if_false] at h ⊢
+              rw [specAdjust_none]
+              split at h
+              · split at h
+                · cases h
+                · rename_i hcc hne
+                  cases h
+                  simp [hcc, hne]
+                  exact hil
+              · rename_i hcc
+                cases h
+                simp [hcc]
+                exact hil
+            | true =>
+              simp only [if_true] at h ⊢
               split at h
               · cases h
-              · rename_i cl hcl
-                have hil : Inv res m0 { st1 with model := cl } :=
-                  ⟨withPars_plainEq (plainOnly_last wf) hi1.model hcl, hi1.memo⟩
+              · rename_i out c hsc
+                obtain ⟨hz, _⟩ := scaleLoop_spec res.rawVars res.rawPars T sel st1.model out c
+                  hi1.model wf.covers wf.plainOnly (hq rfl) hT hlenS hsc
+                rw [hz]; simp only
                 rw [specAdjust_none]
                 split at h
                 · split at h
@@ -408,31 +419,6 @@ theorem getProdConsV_spec {res : Res} {m0 : Content} {k0 : Cache} {st st' : St}
                   cases h
                   simp [hcc]
                   exact hil
-            | true =>
-              simp only [if_true] at h ⊢
-              split at h
-              · cases h
-              · rename_i out c hsc
-                obtain ⟨hz, hc⟩ := scaleLoop_spec res.rawVars res.rawPars T sel st1.model out c
-                  hi1.model wf.covers wf.plainOnly (hq rfl) hT hlenS hsc
-                rw [hz]; simp only
-                split at h
-                · cases h
-                · rename_i cl hcl
-                  have hil : Inv res m0 { st1 with model := cl } :=
-                    ⟨withPars_plainEq (plainOnly_last wf) hc hcl, hi1.memo⟩
-                  rw [specAdjust_none]
-                  split at h
-                  · split at h
-                    · cases h
-                    · rename_i hcc hne
-                      cases h
-                      simp [hcc, hne]
-                      exact hil
-                  · rename_i hcc
-                    cases h
-                    simp [hcc]
-                    exact hil
         · cases h
 
 end Mxl.C10
